@@ -666,8 +666,10 @@ class StubsStringGenerator:
         # Docstring
         docstring = self._create_sds_docstring(enum_data.docstring, "")
 
-        # Signature
-        enum_signature = f"{docstring}enum {enum_data.name}"
+        # Signature - enum names are class names: convert, annotate and escape them like those
+        enum_name = _convert_name_to_convention(enum_data.name, self.naming_convention, is_class_name=True)
+        enum_name_annotation = f"{_create_name_annotation(enum_data.name)}\n" if enum_name != enum_data.name else ""
+        enum_signature = f"{docstring}{enum_name_annotation}enum {_replace_if_safeds_keyword(enum_name)}"
 
         # Enum body
         enum_text = ""
